@@ -157,7 +157,11 @@ def _agree(ref_result, real_result, fx, bug=None) -> bool:
             want_kind = 'cwd'
         if bug == 'value':
             want_value = want_value + '/x'
-        return qi is None and got[0] == 'ok' and got[1] == want_kind and L.norm(got[2]) == want_value
+        if not (qi is None and got[0] == 'ok' and got[1] == want_kind and L.norm(got[2]) == want_value):
+            return False
+        # the value object is consistent: value = root of its relativity joined with its path suffix
+        base = '/' if got[1] == 'abs' else fx.root(got[1])
+        return L.norm(L.join(base, got[3])) == L.norm(got[2])
     if exp[0] == L.REJECT:
         return qi == ri and got[0] in (L.SYNTAX, L.VALIDATION)
     if bug == 'stage':
@@ -210,6 +214,15 @@ ROOTS = ('default', 'cwd', 'home', 'act-home', 'act', 'tmp', 'result', 'abs', 'h
 LINKS = ('rel', 'ref', 'bare', 'refq', 'rels', 'relsp', 'str', 'str2')
 USES = LINKS + ('plain',)  # how the argument refers to the last symbol; 'plain': not at all (default relativity of the argument)
 USE_CONFS = ('file-dst', 'copy-dst', 'copy-src-pre', 'copy-src-post', 'cd-post', 'exists')
+
+
+LINK_TEXT = {'rel': '-rel P x/y', 'ref': '@[P]@/x', 'bare': '@[P]@', 'refq': '"@[P]@/x y"', 'rels': '-rel P @[S]@/x',
+             'relsp': '-rel P "x y/@[S]@"', 'str': '@[T]@ with def string T = @[P]@/x',
+             'str2': '@[TT]@ with def string T = @[P]@/x, def string TT = tt/@[T]@', 'plain': 'x/y (no reference)'}
+
+
+def links_text(kinds) -> str:
+    return '{' + ', '.join('`%s`' % LINK_TEXT[k] for k in kinds) + '}'
 
 
 def root_expr(root: str):
@@ -707,7 +720,7 @@ def obligations(tier: str) -> List[Ob]:
                 name='K2:%s:d%d' % (root, d), fn='k2_chain', case=dict(root=root, depth=d, links=links, confs=USE_CONFS), kernel='K2',
                 selector=True,
                 bound='P0 = %s; %d further definitions each in %s; used as %s; in each of the arguments %s%s' % (
-                    L.render_expr(root_expr(root)), d, list(links), list(USES), list(USE_CONFS), inner),
+                    L.render_expr(root_expr(root)), d, links_text(links), links_text(USES), list(USE_CONFS), inner),
                 timeout=300 if d < 3 else 1800, real=real_unit, stubs=(STUB_FIXTURE, STUB_UNTRACED),
                 entry='`def` of the default [setup] instruction set -> validate_symbol_usages -> parse_path -> resolve'))
     obs.append(Ob(name='K2:seeded-oracle-error', fn='k2_chain',
@@ -744,12 +757,12 @@ def obligations(tier: str) -> List[Ob]:
             name='K3:chain:%s:d%d' % (form, d), fn='k3_chain', case=dict(form=form, depth=d, links=links, uses=uses, phases=phases),
             kernel='K3', selector=True,
             bound='[setup] def path P0 = <each of %s> r0; %d further definitions each in %s; %s with destination referring to the '
-                  'last symbol as each of %s; in each of %s%s' % (list(ROOTS), d, list(links), L.form_lines(form, 'DST'), list(uses),
+                  'last symbol as each of %s; in each of %s%s' % (list(ROOTS), d, links_text(links), L.form_lines(form, 'DST'), links_text(uses),
                                                                   list(phases), inner),
             timeout=900 if d < 2 else 3600, real=real_k3, stubs=stubs_k3, outside=outside_k3,
             entry='MainProgram.execute(["--keep", FILE])'))
     obs.append(Ob(name='K3:seeded-oracle-error', fn='k3_chain',
-                  case=dict(form='file=', depth=0, links=LINKS, uses=('rel',), phases=('setup',), oracle_bug='accepts-all'),
+                  case=dict(form='file=', depth=0, links=LINKS, uses=('rel', 'ref', 'str'), phases=('setup',), oracle_bug='accepts-all'),
                   kernel='K3', selector=True, bound='seeded: the oracle claims that every destination is accepted', timeout=300,
                   expect=ob.REFUTE))
     # ---- K4
@@ -757,7 +770,7 @@ def obligations(tier: str) -> List[Ob]:
         obs.append(Ob(
             name='K4:unit:d%d' % d, fn='k4_unit', case=dict(depth=d), kernel='K4', selector=True,
             bound='P0 = -rel-cd r0 | r0 (default relativity); %d further definitions each in %s; used as %s; the current directory '
-                  'changes %s; in each of the arguments %s%s' % (d, list(LINKS), list(USES), list(CD_AT), list(USE_CONFS), inner),
+                  'changes %s; in each of the arguments %s%s' % (d, links_text(LINKS), links_text(USES), list(CD_AT), list(USE_CONFS), inner),
             timeout=600 if d < 2 else 3000,
             real=real_unit + ('exactly_lib.tcfs.relativity_root.RelNonHdsRootResolverForCwd',),
             stubs=(STUB_FIXTURE, STUB_UNTRACED, 'two real scratch directories, os.chdir'),
@@ -773,7 +786,7 @@ def obligations(tier: str) -> List[Ob]:
             kernel='K4', selector=True,
             bound='[setup] P0 = -rel-cd r0 | r0; one further definition in %s; `dir D` + `cd D` (D in %s) before the definitions / '
                   'after them / not at all; %s with destination as each of %s; in each of %s%s' % (
-                      list(k4_links), list(CD_TARGETS), L.form_lines(form, 'DST'), list(K4_USES), list(phases), inner),
+                      links_text(k4_links), list(CD_TARGETS), L.form_lines(form, 'DST'), list(K4_USES), list(phases), inner),
             timeout=900, real=real_k3, stubs=stubs_k3, outside=outside_k3, entry='MainProgram.execute(["--keep", FILE])'))
     obs.append(Ob(name='K4:program:seeded-oracle-error', fn='k4_program',
                   case=dict(links=('rel',), form='file=', phases=('setup',), oracle_bug='definition-time'), kernel='K4',
@@ -805,7 +818,7 @@ def obligations(tier: str) -> List[Ob]:
                 bound='[setup] marker files at the same relative location under every root; def path P0 = <each of %s> r0 '
                       '(or -rel-result exit-code); %d further definitions each in %s; %s with the source referring to the last '
                       'symbol as each of %s; in each of %s%s' % (
-                          list(ROOTS), d, list(links), read_lines(form, 'SRC', 'MARKER'), list(uses), phs, inner),
+                          list(ROOTS), d, links_text(links), read_lines(form, 'SRC', 'MARKER'), links_text(uses), phs, inner),
                 timeout=900 if d < 2 else 3600, real=real_k5, stubs=stubs_k3,
                 outside=outside_k3 + ('chains rooted in the result directory used after the act phase (only Exactly\'s own three '
                                       'files exist there; `-rel-result exit-code` is used instead)',),
